@@ -73,7 +73,12 @@ def smooth_prime(rng, bits, smooth_bits=16):
 
 
 def low_weight_prime(rng, bits, weight):
+  tries = 0
   while True:
+    tries += 1
+    if tries > 3000:      # no prime of this weight may exist (e.g. weight 3 at 256 bits)
+      weight += 1
+      tries = 0
     p = (1 << (bits - 1)) | 1
     for _ in range(weight - 2):
       p |= 1 << rng.randrange(1, bits - 1)
@@ -163,3 +168,18 @@ def high_low_equal_extreme(rng, bits, r, s):
   if p is None or q is None or p == q:
     return None
   return int(p), int(q)
+
+
+def leading_ones_prime(rng, bits, lead, extra):
+  """sparse prime whose `lead` top bits are all ones, plus `extra` random bits and bit 0."""
+  tries = 0
+  while True:
+    tries += 1
+    if tries > 3000:
+      extra += 1
+      tries = 0
+    p = (((1 << lead) - 1) << (bits - lead)) | 1
+    for _ in range(extra):
+      p |= 1 << rng.randrange(1, bits - lead)
+    if gmpy2.is_prime(p):
+      return p
